@@ -27,6 +27,7 @@ func runC06(c *Ctx, r *Report) {
 	r.Floor("C06-a/semaphore", 1, "reader slots in OpenFilesToChan")
 	c05CloseDiscipline(c, r, units, "C06-a")
 	c06ErrorsCounted(c, r)
+	c06OpenFailures(c, r)
 	c06DroppedErrors(c, r)
 	c06FileOwner(c, r)
 	c06Expansion(c, r)
@@ -537,7 +538,10 @@ func c06Expansion(c *Ctx, r *Report) {
 				_ = e
 			}
 			_ = emptyRange
-			okP := sends > 0 || walks > 0 || logs > 0
+			// a log line alone is not handling: nothing is counted, so the exit status stays 0/1 and the
+			// named input is silently never read
+			_ = logs
+			okP := sends > 0 || walks > 0
 			if !okP {
 				// the zero-iteration path of `for _, item := range expanded` under len(expanded) > 0 is infeasible
 				for _, e := range edges {
@@ -546,7 +550,7 @@ func c06Expansion(c *Ctx, r *Report) {
 					}
 				}
 			}
-			r.Check(okP, rule, fi.Name, "path argument handled", c.Pos(loop.Pos()), "path: every way through the loop body emits the path, its expansions, walks it, or reports an error", "a path argument can pass through the expansion loop without being emitted, expanded, walked or reported: that input is silently never read")
+			r.Check(okP, rule, fi.Name, "path argument handled", c.Pos(loop.Pos()), "path: every way through the loop body emits the path itself, its expansions, or walks it", "a path argument can pass through the expansion loop without being emitted, expanded or walked (a log line counts nothing): that input is never opened, so it is neither read nor counted as a read error and the exit status does not become 2")
 		})
 	}
 	// the literal fallback sends the loop variable itself
@@ -633,4 +637,63 @@ func c06Stdin(c *Ctx, r *Report) {
 	})
 	r.Check(okCond, rule, fi.Name, "no argument or '-'", c.Pos(fi.Decl.Pos()), "guard: stdin is chosen iff there is no argument or the first is '-'", "the choice of standard input is no longer guarded by `no arguments || first argument is \"-\"`")
 	r.Floor(rule, 2, "name and guard")
+}
+
+// c06OpenFailures (C06-b/open-failures): with -z a file that is not gzip is
+// read as a plain file; the only ways openFileToReader may fail are the open
+// itself and the rewind after the probe. Every error it returns must come
+// from os.Open or (*os.File).Seek.
+func c06OpenFailures(c *Ctx, r *Report) {
+	const rule = "C06-b/open-failures"
+	fi := c.MustFunc(r, rule, batchersPkg, "openFileToReader")
+	if fi == nil {
+		return
+	}
+	info := fi.Pkg.TypesInfo
+	n := 0
+	inspectNoLit(fi.Decl.Body, func(x ast.Node) bool {
+		rs, ok := x.(*ast.ReturnStmt)
+		if !ok || len(rs.Results) != 2 {
+			return true
+		}
+		if id, ok := ast.Unparen(rs.Results[1]).(*ast.Ident); ok && id.Name == "nil" {
+			return true
+		}
+		n++
+		eo := identObj(info, rs.Results[1])
+		if eo == nil {
+			r.Bad(rule, fi.Name, stmtStr(rs), c.Pos(rs.Pos()), "the returned error is a computed expression: cannot tell which failure makes the input unreadable")
+			return true
+		}
+		var origins []string
+		ast.Inspect(fi.Decl.Body, func(y ast.Node) bool {
+			as, ok := y.(*ast.AssignStmt)
+			if !ok || len(as.Rhs) != 1 {
+				return true
+			}
+			for _, l := range as.Lhs {
+				if identObj(info, l) == eo {
+					if ce, ok := ast.Unparen(as.Rhs[0]).(*ast.CallExpr); ok {
+						origins = append(origins, calleeName(info, ce))
+					} else {
+						origins = append(origins, exprStr(as.Rhs[0]))
+					}
+				}
+			}
+			return true
+		})
+		bad := ""
+		for _, o := range origins {
+			if o != "os.Open" && o != "(*os.File).Seek" && o != "os.OpenFile" {
+				bad = o
+			}
+		}
+		if len(origins) == 0 {
+			bad = "an unknown origin"
+		}
+		r.Check(bad == "", rule, fi.Name, stmtStr(rs), c.Pos(rs.Pos()), "flow: the error comes from opening or rewinding the file",
+			"openFileToReader fails with an error from "+bad+": a file that merely is not (complete) gzip data - e.g. a plain file shorter than the gzip header - is reported as unreadable instead of being read from its first byte")
+		return true
+	})
+	r.Floor(rule, 2, "open failure and rewind failure")
 }
